@@ -60,6 +60,20 @@ def gen_cases(tier, seed):
             content = bytes(body[:max(1, min(n // 2, 3 * d0))])
             cases.append({'fn': 'make', 'content': content, 'kw': {'version': v, 'error': lv, 'boost_error': False, 'mode': 'byte'},
                           'patterns': ['max-weight', 'uniform'], 'fseed': rng.randrange(1 << 30), 'layout': '%s|%s' % (v, lv)})
+    # one byte value repeated until several blocks consist of nothing else (after the 4-bit shift of the byte-mode
+    # header every data codeword of such a block is the same value - all 256 of them, and the 16 x 16 nibble pairs)
+    for b in range(256):
+        v, lv = rng.choice([(5, 'Q'), (5, 'H'), (7, 'M'), (8, 'L'), (10, 'L'), (13, 'Q')])
+        n = gen.max_chars(v, lv, 'byte')
+        k = rng.choice([n, n - 1, n * 3 // 4])
+        cases.append({'fn': 'make', 'content': bytes([b]) * k, 'kw': {'version': v, 'error': lv, 'boost_error': False, 'mode': 'byte'},
+                      'patterns': ['uniform'], 'fseed': rng.randrange(1 << 30), 'layout': '%s|%s' % (v, lv)})
+        if tier == 'thorough' or b % 4 == 0:
+            # two alternating bytes x, y with equal nibbles crosswise: every codeword is one value as well
+            hi, lo = b >> 4, b & 15
+            pair = bytes([(lo << 4) | hi, b])
+            cases.append({'fn': 'make', 'content': pair * (k // 2), 'kw': {'version': v, 'error': lv, 'boost_error': False, 'mode': 'byte'},
+                          'patterns': ['uniform'], 'fseed': rng.randrange(1 << 30), 'layout': '%s|%s' % (v, lv)})
     # list content whose parts share a mode (they are merged into one segment), sized around the capacities of the
     # Micro versions - M1 / M3 end in a 4-bit codeword, so any surplus bit lands in the nibble that is not placed
     for _ in range(120 if tier == 'quick' else 3000):
